@@ -10,7 +10,7 @@ Legs
      implementation of the X.680 rules as oracle (class `Oracle`, not derived from the Lean
      Spec): fault-free generated modules are accepted (exit 0); every single-fault injection
      (tag collision at a pair of positions — same tag, same built-in type, through a nested
-     untagged CHOICE, through reference chains —, duplicate identifier, duplicate
+     untagged CHOICE, through reference chains in both role orders —, duplicate identifier, duplicate
      enumeration name / value, dangling reference) is rejected iff the oracle says the
      module is inconsistent: exit != 0, diagnostic on stderr, nothing written into the
      output directory.  asn1c dying by signal / ASan report is a failure.
@@ -650,8 +650,6 @@ def inject_faults(rng, M, limit):
                 cho = ('constr', None, 'cho', [('pz', ('prim', ('P', 1000, 'd'), 'bool'), 'm'), ('qz', alt, 'm')], False, [])
                 od = 'o' if cd[2] == 'd' else cd[2]
                 return nd, cho, od
-            def untagged_ref(c):
-                return c[1][0] == 'ref' and c[1][1] is None
             def v_inline(nd, src=x, dst=y):
                 nd, cho, od = via_choice(nd, src, dst)
                 return put(nd, dst, (get(nd, dst)[0], cho, od))
@@ -665,24 +663,16 @@ def inject_faults(rng, M, limit):
                 variants.append(('via-inline-choice-ext', v_inline_ext, []))
             if rng.random() < 0.3:
                 variants.append(('via-inline-choice', lambda nd: v_inline(nd, y, x), []))
-            # (d) … through a reference chain X1 -> X2 -> CHOICE.  An untagged type reference
-            # *followed* by a reference to an untagged CHOICE is the region of the known
-            # TM_RECURSION finding (witness typeref-then-choice-ref-missed): choose the roles so
-            # that the generated mutant stays outside it
-            if not untagged_ref(cx):
-                src, dst = x, y
-            elif not untagged_ref(cy):
-                src, dst = y, x
-            else:
-                src = dst = None
-            if src is not None:
+            # (d) … through a reference chain X1 -> X2 -> CHOICE, in both role orders (an untagged type reference
+            # *followed* by a reference to an untagged CHOICE was the region of the former finding F61)
+            for kind, (src, dst) in (('via-ref-chain', (x, y)), ('via-ref-chain-rev', (y, x))):
                 def v_ref(nd, src=src, dst=dst):
                     nd, cho, od = via_choice(nd, src, dst)
                     return put(nd, dst, (get(nd, dst)[0], ('ref', None, fresh[0]), od))
                 def v_ref_extra(nd, src=src, dst=dst):
                     _, cho, _ = via_choice(nd, src, dst)
                     return [(fresh[0], ('ref', None, fresh[1])), (fresh[1], cho)]
-                variants.append(('via-ref-chain', v_ref, v_ref_extra))
+                variants.append((kind, v_ref, v_ref_extra))
             for kind, fn, extra in variants:
                 try:
                     M2 = mod_replace(M, ti, path, fn)
@@ -833,15 +823,6 @@ WITNESSES = [
      ('E', [('T0', ('enum', None, [('a', 1), ('b', None)], True, [('c', 0)]))]), 'reject'),
 ]
 
-WITNESSES.append(
-    ('typeref-then-choice-ref-missed',
-     'T1 ::= CHOICE { x T0, y T2 } with T0 ::= INTEGER, T2 ::= CHOICE { p INTEGER, q NULL }: x and y.p are both '
-     'INTEGER.  _asn1f_compare_tags(x, y) marks x and y with TM_RECURSION before descending into T2, and '
-     'asn1f_fetch_tags_impl refuses to follow the marked reference x, so every comparison answers 0: accepted',
-     ('E', [('T0', P('int')),
-            ('T1', ('constr', None, 'cho', [('x', ('ref', None, 'T0'), 'm'), ('y', ('ref', None, 'T2'), 'm')], False, [])),
-            ('T2', ('constr', None, 'cho', [('p', P('int'), 'm'), ('q', P('null'), 'm')], False, []))]), 'reject'))
-
 # former witness of the repaired finding F63 (a type defined through itself without an intervening tag: asn1c died by stack
 # overflow in _asn1f_compare_tags, now a FATAL diagnostic) and its neighbourhood: ordinary cases, nothing is suppressed.
 # The model runs out of fuel on them (`loop`), which its verdict reports as reject: K demands that asn1c rejects too.
@@ -860,13 +841,37 @@ FORMER_WITNESSES = [
             ('T1', ('constr', None, 'set', [('x', ('ref', None, 'T0'), 'm'), ('y', P('bool'), 'm')], False, []))]), 'reject'),
 ]
 
+# former witness of the repaired finding F61 (_asn1f_compare_tags marked the members it compared with TM_RECURSION, and
+# asn1f_fetch_tags_impl refuses to follow a marked reference: a clash behind a later reference to an untagged CHOICE was missed)
+# with its neighbourhood, incl. (legally) recursive modules
+_T2 = _cho(('p', P('int')), ('q', P('null')))
+_REC = _cho(('l', ('prim', ('C', 0, 'd'), 'int')), ('n', ('ref', ('C', 1, 'e'), 'R')))     # R ::= CHOICE { l [0] INTEGER, n [1] EXPLICIT R }
+FORMER_WITNESSES += [
+    ('typeref-then-choice-ref-missed', 'T1 ::= CHOICE { x T0, y T2 } with T0 ::= INTEGER, T2 ::= CHOICE { p INTEGER, q NULL }: x and y.p are both INTEGER',
+     ('E', [('T0', P('int')), ('T1', _cho(('x', ('ref', None, 'T0')), ('y', ('ref', None, 'T2')))), ('T2', _T2)]), 'reject'),
+    ('choice-ref-then-typeref-found', 'the same pair in the other order',
+     ('E', [('T0', P('int')), ('T1', _cho(('y', ('ref', None, 'T2')), ('x', ('ref', None, 'T0')))), ('T2', _T2)]), 'reject'),
+    ('typeref-then-choice-ref-disjoint', 'T1 ::= CHOICE { x T0, y T2 } with T0 ::= BOOLEAN: no common tag',
+     ('E', [('T0', P('bool')), ('T1', _cho(('x', ('ref', None, 'T0')), ('y', ('ref', None, 'T2')))), ('T2', _T2)]), 'accept'),
+    ('typeref-then-choice-ref-set', 'SET { x T0, m BOOLEAN, y T3 }, T3 ::= T2 (chain), T0 ::= NULL: x and y.q are both NULL',
+     ('E', [('T0', P('null')), ('T1', ('constr', None, 'set', [('x', ('ref', None, 'T0'), 'm'), ('m', P('bool'), 'm'), ('y', ('ref', None, 'T3'), 'm')], False, [])),
+            ('T2', _T2), ('T3', ('ref', None, 'T2'))]), 'reject'),
+    ('typeref-then-choice-ref-seq-run', 'SEQUENCE { x T0 OPTIONAL, y T2 }: x and y.p are both INTEGER',
+     ('E', [('T0', P('int')), ('T1', ('constr', None, 'seq', [('x', ('ref', None, 'T0'), 'o'), ('y', ('ref', None, 'T2'), 'm')], False, [])), ('T2', _T2)]), 'reject'),
+    ('typeref-then-choice-ref-implicit', 'the first witness in an IMPLICIT TAGS module',
+     ('I', [('T0', P('int')), ('T1', _cho(('x', ('ref', None, 'T0')), ('y', ('ref', None, 'T2')))), ('T2', _T2)]), 'reject'),
+    ('inline-choice-with-recursive-ref-then-same-ref', 'T1 ::= SET { a CHOICE { r R }, b R } with the (legally) recursive R ::= CHOICE { l [0] INTEGER, n [1] EXPLICIT R }',
+     ('E', [('R', _REC), ('T1', ('constr', None, 'set', [('a', _cho(('r', ('ref', None, 'R'))), 'm'), ('b', ('ref', None, 'R'), 'm')], False, []))]), 'reject'),
+    ('recursive-ref-then-inline-choice', 'T1 ::= SET { b R, a CHOICE { r R } }',
+     ('E', [('R', _REC), ('T1', ('constr', None, 'set', [('b', ('ref', None, 'R'), 'm'), ('a', _cho(('r', ('ref', None, 'R'))), 'm')], False, []))]), 'reject'),
+    ('recursive-choice-consistent', 'T1 ::= SET { a CHOICE { r R }, b BOOLEAN }: the recursion of R crosses a tag, nothing clashes',
+     ('E', [('R', _REC), ('T1', ('constr', None, 'set', [('a', _cho(('r', ('ref', None, 'R'))), 'm'), ('b', P('bool'), 'm')], False, []))]), 'accept'),
+    ('typeref-vs-recursive-choice-ref', 'T1 ::= CHOICE { x T0, y R } with T0 ::= [0] BOOLEAN: x and y.l are both [0]',
+     ('E', [('R', _REC), ('T0', ('prim', ('C', 0, 'd'), 'bool')), ('T1', _cho(('x', ('ref', None, 'T0')), ('y', ('ref', None, 'R'))))]), 'reject'),
+]
+
 # deviations from the standard that do not contradict the property text (documented, K only)
 QUIRKS = [
-    # the same pair in the other order is diagnosed
-    ('choice-ref-then-typeref-found',
-     ('E', [('T0', P('int')),
-            ('T1', ('constr', None, 'cho', [('y', ('ref', None, 'T2'), 'm'), ('x', ('ref', None, 'T0'), 'm')], False, [])),
-            ('T2', ('constr', None, 'cho', [('p', P('int'), 'm'), ('q', P('null'), 'm')], False, []))])),
     ('seq-run-across-marker',
      ('E', [('T0', ('constr', None, 'seq', [('a', P('int'), 'o')], True, [('b', P('int'), 'm')]))])),
 ]
@@ -879,7 +884,7 @@ def run(ctx, only_modules=None):
     ctx.lean()
     ctx.cov['rule'] = ('random fault-free modules over the C11 type algebra (EXPLICIT/IMPLICIT/AUTOMATIC) and their '
                        'single-fault mutants (tag collision at member pairs via same tag / same built-in / nested untagged '
-                       'CHOICE / reference chain, duplicate identifier, duplicate enumeration name / value, dangling '
+                       'CHOICE / reference chain in both role orders, duplicate identifier, duplicate enumeration name / value, dangling '
                        'reference); distinct = distinct module texts; non-trivial = asn1c reached the semantic checker '
                        '(no syntax error) and the oracle decided the expected verdict')
     rng = ctx.rng
@@ -1033,10 +1038,6 @@ def run(ctx, only_modules=None):
         f = None
         if is_enum_numbering_case(c['M']):
             f = ctx.match_finding(lambda f: any(i.startswith('enum-numbering') for i in finding_ids(f)))
-        elif 'accepted' in why and (is_markcut_case(c['M']) or ' cut ' in (' ' + str(c.get('model') or '') + ' ')):
-            # the same root cause in any shape: the Lean model of the fixer (which mirrors the TM_RECURSION marks) reports that
-            # a descent was cut by a mark while the tag sets were compared, and asn1c accepts what the X.680 oracle rejects
-            f = ctx.match_finding(lambda f: 'typeref-then-choice-ref-missed' in finding_ids(f))
         if f:
             continue
         ctx.violation('C11 predicate fails on asn1c: %s [%s %s]' % (why, c['kind'], c['desc']),
@@ -1085,26 +1086,6 @@ def run(ctx, only_modules=None):
 def finding_ids(f):
     w = f.get('witness', {})
     return set([w['id']] if 'id' in w else []) | set(w.get('ids', []))
-
-
-def is_markcut_case(M):
-    """matcher of the TM_RECURSION finding: some SEQUENCE/SET/CHOICE (not automatically tagged) has an
-    untagged type reference member whose tag is determinate, followed by an untagged type reference
-    that leads to an untagged CHOICE, and their tag sets intersect"""
-    orc = Oracle(M)
-    for _, _, node in all_nodes(M):
-        if node[0] != 'constr':
-            continue
-        if M[0] == 'A' and all(c[1][1] is None for c in node[3]):
-            continue
-        cs = node[3] + node[5]
-        for i in range(len(cs)):
-            for j in range(i + 1, len(cs)):
-                a, b = cs[i][1], cs[j][1]
-                if a[0] == 'ref' and a[1] is None and b[0] == 'ref' and b[1] is None and \
-                        not orc.untagged_choice(a) and orc.untagged_choice(b) and orc.tags(a, ()) & orc.tags(b, ()):
-                    return True
-    return False
 
 
 def is_enum_numbering_case(M):
